@@ -23,7 +23,7 @@
 //! whitespace tokenizer), C08 (location in range / on the corrupted token `t`), C09 (no line
 //! pulled beyond the completing one).
 use crate::common::*;
-use crate::eng_cnf::{line_schedule, schedules};
+use crate::eng_cnf::schedules;
 use flussab::text::LineReader;
 use flussab::{DeferredReader, DeferredWriter};
 use flussab_btor2::btor2::*;
@@ -319,7 +319,51 @@ impl RunObs {
     }
 }
 
+/// A source that returns at most one line per `read` (C09): up to and including the next
+/// newline, or as much of the line as the caller's buffer takes — a long line arrives in pieces,
+/// never together with bytes of the line after it.  (`eng_cnf::line_schedule` expresses the same
+/// for lines that fit into one read.)  State: data, offset, fault, ended.
+#[derive(Clone)]
+pub struct LineSrc(pub std::rc::Rc<std::cell::RefCell<(Vec<u8>, usize, bool, bool)>>);
+
+impl LineSrc {
+    pub fn new(data: Vec<u8>, fault: bool) -> Self {
+        LineSrc(std::rc::Rc::new(std::cell::RefCell::new((data, 0, fault, false))))
+    }
+}
+
+impl std::io::Read for LineSrc {
+    fn read(&mut self, buf: &mut [u8]) -> std::io::Result<usize> {
+        let mut s = self.0.borrow_mut();
+        let (off, len) = (s.1, s.0.len());
+        if off == len || buf.is_empty() {
+            if off == len && s.2 && !s.3 {
+                s.3 = true;
+                return Err(std::io::Error::new(std::io::ErrorKind::Other, "fault"));
+            }
+            s.3 = true;
+            return Ok(0);
+        }
+        let line_end = s.0[off..].iter().position(|b| *b == b'\n').map(|p| off + p + 1).unwrap_or(len);
+        let k = (line_end - off).min(buf.len());
+        buf[..k].copy_from_slice(&s.0[off..off + k]);
+        s.1 += k;
+        Ok(k)
+    }
+}
+
 pub fn run_parser(src: SchedSource, chunk: usize) -> RunObs {
+    let log = src.clone();
+    run_parser_on(src, move || log.0.borrow().log.len(), chunk)
+}
+
+pub fn run_parser_lines(data: Vec<u8>, fault: bool) -> RunObs {
+    let src = LineSrc::new(data, fault);
+    let log = src.clone();
+    run_parser_on(src, move || log.0.borrow().1, 16384)
+}
+
+fn run_parser_on(src: impl std::io::Read + Clone + 'static, delivered: impl Fn() -> usize, chunk: usize) -> RunObs {
     let items = std::cell::RefCell::new(vec![]);
     let fin = catch(|| {
         let mut reader = DeferredReader::from_read(src.clone());
@@ -332,7 +376,7 @@ pub fn run_parser(src: SchedSource, chunk: usize) -> RunObs {
             match p.next_line() {
                 Ok(Some(l)) => {
                     let o = OLine::from_line(&l);
-                    let d = src.0.borrow().log.len();
+                    let d = delivered();
                     items.borrow_mut().push((o, d));
                 }
                 Ok(None) => return "END".to_string(),
@@ -559,7 +603,7 @@ pub fn run_case(line: &str) -> (String, Vec<String>) {
 
     if c.ls {
         // C09: one line per read
-        let obs = run_parser(mk(line_schedule(&delivered)), 16384);
+        let obs = run_parser_lines(delivered.clone(), fault);
         if obs.fin == "E:panic" {
             fails.push("C05:parser panicked".into());
         }
